@@ -60,6 +60,9 @@ def gen_last_drop(rng):
                 for pat in itertools.product(["Rk", "Re8", "Rp"], repeat=min(3, n)):
                     tail = list(pat) + ["Rk"] * (n + 1)
                     cases.append("Q %s 1 %s" % (cap, ",".join(pre + tail)))
+                    if all(p == "Rk" for p in pat) or n == 1:
+                        # the same, the last handle going away while its thread unwinds from a panic
+                        cases.append("Q %s 1 %s" % (cap, ",".join(pre[:-1] + ["U0"] + tail)))
     return cases
 
 
@@ -109,7 +112,7 @@ def gen_random(rng, n, maxlen):
             elif o == "D":
                 h = rng.choice(live)
                 live.remove(h)
-                seq.append("D%d" % h)
+                seq.append(("U%d" if rng.random() < 0.3 else "D%d") % h)
             elif o == "S":
                 seq.append("S")
             else:
@@ -224,7 +227,17 @@ def judge_schedule(case, obs):
 
 # ----------------------------------------------------------------------------- property clauses (reference)
 
+def as_plain_drop(case):
+    """U<h> (the handle is dropped by a thread that is unwinding) is an ordinary drop for the model and the clauses"""
+    import re
+    t = case.split(" ")
+    if t[0] == "Q":
+        t[3] = re.sub(r"U(\d+)", r"D\1", t[3])
+    return " ".join(t)
+
+
 def judge(case, obs):
+    case = as_plain_drop(case)
     """evaluate the clauses of C08..C11, C15, C16 on the implementation's observation of a scripted history;
     returns a list of (property id, message)"""
     t = case.split()
@@ -354,7 +367,7 @@ def run_queue_check(prop, tier, seed):
     sched = gen_schedules(7 if thorough else 6, [1, 2, None], rng, 3000 if thorough else 300, 30)
     try:
         impl = common.run_harness("queue", cases, shards=common.NCPU)
-        model = common.run_model("queue", cases)
+        model = common.run_model("queue", [as_plain_drop(c) for c in cases])
         simpl = common.run_harness("queue", soak, shards=min(4, len(soak)))
         hmodel = common.run_model("queue", sched)
         keep = [i for i, m in enumerate(hmodel) if m != "invalid"]
